@@ -320,7 +320,9 @@ class Check(PropertyCheck):
                   "the data, then exactly one ConnectionClosed, and then holds the complete plaintext of the connection), send_after_half_close (tunnel level: the peer's "
                   "TCP close sets CLOSED, and a SendData of the child in that state is still encrypted and forwarded; peer's reading = accepted payloads), ref_codec_lawful + "
                   "child_stream_exact_ref + peer_stream_exact_ref (the framed record codec of the driver is a proved-lawful instance; the stream theorems hold for it "
-                  "without hypotheses about the engine). CLAUSES: 'every byte the client sends reaches the inner layer exactly once, in order, regardless of record/"
+                  "without hypotheses about the engine), child_stream_complete_run / close_last_run (the same two statements about `run (evs ++ [segment])` itself for a history that left "
+                  "the tunnel OPEN), half_close_keeps_engine (the peer's TCP close on an OPEN tunnel whose child stays quiet leaves engine, ciphertext and accepted payloads "
+                  "untouched and the tunnel CLOSED — the state send_after_half_close starts from). CLAUSES: 'every byte the client sends reaches the inner layer exactly once, in order, regardless of record/"
                   "segment splits' = child_stream_exact + child_stream_complete / oracle clause got == expect_child; 'every byte the inner layer sends reaches the "
                   "client' = peer_stream_exact + send_after_half_close / oracle clauses peer_plain == cs_payloads and injected events handled once in order; 'same on "
                   "the server side' = the theorems are for both Sides / scenarios on client, server-open, server-eager; 'close_notify delivered as close after all "
@@ -342,7 +344,14 @@ class Check(PropertyCheck):
                   "considered while command_to_reply_to is set; a second start_tls is the real code's `assert not self.tls`. Not modelled: ignore_connection, "
                   "ServerTLSLayer.wait_for_clienthello hand-over, DTLS. TLS 1.3 only in the differential run. The harness replays EOF / data after a close_notify "
                   "directly (world.py declines once the TLS layer cleared CAN_READ, proxy/server.py's reader does not). "
-                  "ORACLE AUDIT — excused / not demanded, each exercised by known_selftest(): (a) premature_send (server side, child writes before its "
+                  "ROUND-6 AUDIT DISCLOSURES: (i) the model branch `Env.serverFirst = true` (ClientTLSLayer.start_server_tls emitting OpenConnection(context.server)) is NOT tied: it "
+                  "needs a ServerTLSLayer parent (`server_tls_available`), i.e. the two-layer composition that is not modelled; the driver fixes serverFirst = false and "
+                  "no scenario sets establish_server_tls_first — theorems quantified over every env speak about that branch of the MODEL only; (ii) the first conjunct of "
+                  "send_after_half_close (`closeEv` sets CLOSED) holds by the shape of `handle`, and its `t` is an arbitrary CLOSED state — that such a state is what a close "
+                  "produces is half_close_keeps_engine (and the auditor's witness W5); (iii) child_stream_complete / close_last conclude about `receiveData child (run … evs) d`; "
+                  "they coincide with the history `evs ++ [.data d]` when the tunnel is OPEN (child_stream_complete_run / close_last_run), not when it is ESTABLISHING with a "
+                  "pending reply, where `handle` runs the handshake branch; (iv) the ghost field `inbound` was removed from the model (unused since the invariants take the byte "
+                  "stream as a parameter). ORACLE AUDIT — excused / not demanded, each exercised by known_selftest(): (a) premature_send (server side, child writes before its "
                   "OpenConnection is answered): only the outbound clauses and a WantReadError/SSL Error of sendall are excused, the inbound and close clauses "
                   "are not; the model tie is skipped for it; (b) Skip(): the PEER's output does not split into whole TLS records, a peer write/close_notify is not "
                   "exactly one record, the peer cannot write — all facts about the in-memory peer, not the layer; (c) pw/pc ops are dropped while the peer's own "
